@@ -49,6 +49,22 @@ CLAIMED = {
         "Trusted: z3, DSE engine, the association-list dict stand-in replacing NameSelector._counts.",
         "DESIGN.md §5 C10",
     ),
+    "C06": (
+        "symbolic execution of the real USE_RE/get_used_entities and of parser+Project.correlate on symbolic multi-module projects (finite-choice statements), decided by z3",
+        "For every USE form of the tables (plain, ONLY, renames with/without ONLY, :: and intrinsic prefixes, case/blank variants, empty ONLY) the "
+        "imported local names and entities equal the standard's USE association rule; through a chain a->b->c with symbolic default "
+        "accessibility, public lists, ONLY lists and renames at both hops the type linked in c is the one the standard designates.",
+        "Trusted: z3, CV evaluator (CPython semantics per choice), the USE association oracle in fv/props/c06.py.",
+        "DESIGN.md §5 C06",
+    ),
+    "C07": (
+        "symbolic execution of the real parser + Project.correlate on symbolic projects (finite-choice USE statements and references), decided by z3",
+        "For every combination of USE form in the referencing scope and referenced name/letter case (declared in the used module, the host, a "
+        "sibling or child scope, privately, or nowhere) the entity linked for a variable's derived type, a procedure pointer's interface and "
+        "a called procedure is the one Fortran scoping designates (innermost use/host association; sibling/child-local and undeclared names stay text).",
+        "Trusted: z3, CV evaluator, the scoping oracle in fv/props/c07.py.",
+        "DESIGN.md §5 C07",
+    ),
     "C09": (
         "SMT (z3 linear integer arithmetic) implication between template link conditions (Jinja AST) and page-creation conditions (Python AST)",
         "For every statically known internal URL in the real templates the enclosing template conditions imply the page-creation "
